@@ -147,7 +147,7 @@ func refFree(t *ast.Term) []string {
 }
 
 var MutationKinds = []string{
-	"binder-to-scope", "case-payload-to-scope", "case-payload-to-scope", "binder-to-alias", "alias-to-live", "cut-reuse-self-as-name", "drop-statement", "dup-statement", "rename-binder", "rename-use", "wait-to-drop", "insert-drop", "insert-split",
+	"binder-to-scope", "case-payload-to-scope", "case-payload-to-scope", "binder-to-alias", "binder-to-alias", "alias-to-live", "alias-to-live", "alias-to-live", "cut-reuse-self-as-name", "drop-statement", "dup-statement", "rename-binder", "rename-use", "wait-to-drop", "insert-drop", "insert-split",
 	"extra-provider", "swap-send-args", "wrong-label", "drop-branch", "dup-branch", "extra-branch", "arity-minus", "arity-plus",
 	"wrong-callee", "self-misplaced", "ann-inequivalent", "ann-mode", "param-mode", "ret-mode", "prc-mode", "ann-equivalent",
 	"swap-statements", "cut-body-continuation", "remove-ann", "polarity", "self-arg", "shift-words", "typedef-change", "toplevel-cycle", "merge-binders", "merge-binders", "dup-function",
@@ -414,7 +414,27 @@ func (d D) Mutate(p *ast.Program, kind string) (*ast.Program, string, bool) {
 		renameUses(r.T, from, to)
 		return q, fmt.Sprintf("binder %s of a %s renamed to the provider's alias %s in %s", from, ast.TermKindName[r.T.Kind], to, declName(r.Decl)), true
 	case "alias-to-live": // the name a right rule binds for the provider takes the name of a channel bound earlier
-		r, ok := pick(func(r termRef) bool {
+		liveAt := func(r termRef) []string {
+			var live []string
+			used := map[string]bool{}
+			(&ast.Term{K: r.T.K, Brs: r.T.Brs}).Walk(func(x *ast.Term) {
+				for _, n := range []ast.Nm{x.X, x.Y, x.Z} {
+					if !n.Self {
+						used[n.S] = true
+					}
+				}
+				for _, a := range x.Args {
+					used[a.S] = true
+				}
+			})
+			for _, n := range r.Scope {
+				if used[n] {
+					live = append(live, n)
+				}
+			}
+			return live
+		}
+		isSite := func(r termRef) bool {
 			if len(r.Scope) == 0 {
 				return false
 			}
@@ -426,11 +446,20 @@ func (d D) Mutate(p *ast.Program, kind string) (*ast.Program, string, bool) {
 				return len(r.T.Brs) > 0 && (r.T.X.Self || (r.Alias != "" && r.T.X.S == r.Alias))
 			}
 			return false
-		})
+		}
+		// sites where an earlier name is still used by the continuation come first: that channel is
+		// certainly owed a use, and the renamed provider then stands next to it
+		r, ok := pick(func(r termRef) bool { return isSite(r) && len(liveAt(r)) > 0 })
+		if !ok || d.Chance(10, "anysite") {
+			r, ok = pick(isSite)
+		}
 		if !ok {
 			return nil, "", false
 		}
 		to := r.Scope[d.Pick(len(r.Scope), "to")]
+		if live := liveAt(r); len(live) > 0 && d.Likely(80, "liveto") {
+			to = live[d.Pick(len(live), "livewhich")]
+		}
 		var from string
 		switch r.T.Kind {
 		case ast.TRecv:
